@@ -1,4 +1,4 @@
-// Counterexample found by mirsym/z3 for property C19: plusz(x,y,N) ; timesz(N,x,N) answer leaves operand 1 of constraint 0 unbound although the other two are ground e.g. plusz(x, y, 4), timesz(4, x, -4)
+// Counterexample found by mirsym/z3 for property C19: plusz(x,y,N) ; timesz(N,x,N) answer leaves operand 1 of constraint 0 unbound although the other two are ground e.g. plusz(x, y, 4), timesz(1, x, 2)
 // Replay: /verif/check C19 --replay /verif/replay/cases/C19-S3_plusz_timesz_plusz_x_y_N_timesz_N_x_N_determined_operand_unbound_c0_pos_1.rs   (runs this program natively against /repo)
 use proto_vulcan::prelude::*;
 #[allow(unused_imports)]
@@ -12,7 +12,7 @@ fn replay() {
         |x, y| {
             q == [x, y],
             plusz(x, y, 4),
-            timesz(4, x, -4)
+            timesz(1, x, 2)
         }
     });
     let expected: isize = -2; // -1: any number of answers, but no panic; -2: no unbound variable in any answer
